@@ -45,7 +45,7 @@ def enumerated(tier):
     return 'scenarios x configurations %s' % (CFGS if tier != 'quick' else CFGS[:4],)
 
 
-CFGS = [('central', 1, 2), ('forward', 2, 2), ('complex', 1, 2), ('central', 2, 4), ('backward', 1, 3), ('complex', 3, 4), ('central', 3, 2)]
+CFGS = [('central', 1, 2), ('forward', 2, 2), ('complex', 1, 2), ('forward', 1, 3), ('central', 2, 4), ('backward', 1, 3), ('complex', 3, 4), ('central', 3, 2)]
 
 
 def groups(tier):
@@ -285,7 +285,7 @@ def run_ci():
     m = mods(); fd, core = m['fd'], m['core']
     cnt = 0
     bad = []
-    for method, n, order, r in itertools.product(['central', 'forward', 'backward', 'complex'], [1, 2, 3, 4, 6], [1, 2, 4, 6], [2.0, 1.6, 4.0, 1.1]):
+    for method, n, order, r in itertools.product(['central', 'forward', 'backward', 'complex'], [1, 2, 3, 4, 6], [1, 2, 4, 6], [2.0, 1.6, 4.0, 1.1, 1.64, 2.04, 1.55, 10.0 / 3.0]):
         fd.FD_RULES.clear()
         rule = fd.LogRule(n=n, method=method, order=order)
         w = rule.rule(r)
@@ -303,6 +303,18 @@ def run_ci():
         if not ok:
             bad.append((method, n, order, r, key, want_key))
     solve.fact('CI:rule()-stores-exactly-(make_exact(r),parity,num_terms)->pinv(_fd_matrix(key))[%d configurations]' % cnt, not bad, note=str(bad[:2]))
+    # neighbouring step ratios must not share a cache entry: a rule computed with a warm cache == the rule computed cold
+    near = []
+    for method, n, order in [('central', 1, 4), ('forward', 1, 3), ('central', 3, 2), ('complex', 3, 4), ('backward', 2, 2)]:
+        for ra, rb in [(1.6, 1.64), (1.55, 1.6), (2.0, 2.04), (2.0, 2.0000000000000004), (4.0, 3.96)]:
+            fd.FD_RULES.clear()
+            cold = fd.LogRule(n=n, method=method, order=order).rule(rb)
+            fd.FD_RULES.clear()
+            fd.LogRule(n=n, method=method, order=order).rule(ra)
+            warm = fd.LogRule(n=n, method=method, order=order).rule(rb)
+            if not np.array_equal(cold, warm):
+                near.append((method, n, order, ra, rb))
+    solve.fact('CI:rule(r)-after-rule(r\')-for-a-nearby-ratio==rule(r)-with-a-cold-cache[25 pairs]', not near, note=str(near[:3]))
     # base case of the invariant: the content of FD_RULES when the module has just been imported
     fresh = fresh_fd_module(fd)
     init_bad = []
